@@ -290,8 +290,9 @@ class OPDFan(Wavefront):
                 intensity_x = self.data[i][j][1][self.num_rays:]
                 intensity_y = self.data[i][j][1][:self.num_rays]
 
-                wx[intensity_x == 0] = np.nan
-                wy[intensity_y == 0] = np.nan
+                # blocked rays are left out of the plot, not of the data
+                wx = np.where(intensity_x == 0, np.nan, wx)
+                wy = np.where(intensity_y == 0, np.nan, wy)
 
                 axs[i, 0].plot(self.pupil_coord, wy, zorder=3,
                                label=f'{wavelength:.4f} µm')
